@@ -571,7 +571,7 @@ def queue_tlc_start(chk, only):
     ex = cf.ThreadPoolExecutor(max_workers=8)
     futs = {}
     if only is None or "queue_mc" in only:
-        for name in ("MC.cfg", "MC_periodic.cfg") + (() if q else ("MC_big.cfg",)):
+        for name in ("MC.cfg", "MC_periodic.cfg", "MC_persweep.cfg", "MC_snapshot.cfg") + (() if q else ("MC_big.cfg",)):
             futs[name] = ex.submit(qtlc, name, workers=(8 if name == "MC_big.cfg" else 4), timeout=1500, keep_prints=False, coverage=False)
             time.sleep(0.15)
     if only is None or "queue_replay" in only:
@@ -590,7 +590,11 @@ def queue_part(chk, args, only, futs):
         chk.add_tlc(r)
         if name.startswith("MC"):
             chk.note("TLC QueueConn %s: %d distinct states, error=%s (%.0fs)" % (name, r.distinct, r.error, r.wall))
-            if r.error:
+            if name == "MC_snapshot.cfg":
+                # sensitivity: a sweep that trusts its snapshot must violate the property
+                if r.error not in ("actionprop:NeverDiscardEarly", "actionprop:KeptWhileSeen"):
+                    chk.fail("vacuity: the snapshot-sweep variant of QueueConn does not violate NeverDiscardEarly (got %s)" % r.error)
+            elif r.error:
                 chk.fail("QueueConn model check %s failed: %s\n%s" % (name, r.error, r.out[-1500:]))
         elif r.error:
             raise vlib.Inconclusive("QueueConn case generation %s failed: %s" % (name, r.error))
@@ -614,6 +618,7 @@ def queue_part(chk, args, only, futs):
                 queue_realtime(chk, cases)
     if only is None or "sweeper" in only:
         sweeper(chk)
+        sweep_stress(chk)
 
 
 def sweeper(chk, ms=300):
@@ -660,6 +665,67 @@ def sweeper(chk, ms=300):
         chk.violation("C17/sweeper/" + kind, "real ClientMap sweeper (T=%d ms): unexplained observation %s (last touch %s)" % (ms, json.dumps(ev), json.dumps(lt)),
                       {"mode": "sweeper", "trace": evs})
         return
+
+
+def sweep_stress(chk):
+    """Mass expiry against concurrent sightings on the real ClientMap + real
+    sweeper (TestVerifSweepStress): thousands of filler clients and a few
+    watched ones expire in one sweep; the watched ones start being seen the
+    moment the sweep begins.  TLC (QueueConn_Trace) holds the rule that a
+    client's queue may be replaced only when its previous sighting started a
+    full timeout earlier - the real-time form of NeverDiscardEarly /
+    KeptWhileSeen for a sweep that is atomic per record."""
+    race = os.environ.get("VERIF_RACE") == "1"
+    ms, fillers, watched, rounds = (2500, 2000, 16, 3) if race else (1000, 3000, 16, 3)
+    d = vlib.scratch("sweep-stress")
+    valid_rounds, contended = 0, 0
+    for attempt in (1, 2):
+        outp = os.path.join(d, "stress%d.ndjson" % attempt)
+        r = vlib.go_test_inpkg("common/turbotunnel", [INPKG], "TestVerifSweepStress$", timeout=300,
+                               env={"VERIF_OUT": outp, "VERIF_STRESS_MS": str(ms), "VERIF_STRESS_FILLERS": str(fillers),
+                                    "VERIF_STRESS_WATCHED": str(watched), "VERIF_STRESS_ROUNDS": str(rounds)})
+        if r.rc != 0 or r.timed_out or not os.path.exists(outp + ".summary"):
+            raise vlib.Inconclusive("sweep stress harness failed:\n%s" % r.out[-3000:])
+        with open(outp + ".summary") as fh:
+            summ = json.load(fh)
+        evs = vlib.read_ndjson(outp)
+        good = [x for x in summ["rounds"] if x["valid"]]
+        for x in summ["rounds"]:
+            if x.get("panic"):
+                chk.violation("C17/sweeper/panic:" + x["panic"], "ClientMap.SendQueue panicked while a mass expiry was in progress (round %s)" % x["round"],
+                              {"mode": "sweep_stress"})
+        with open(os.path.join(QSPEC, "Trace_sweeper.cfg")) as fh:
+            cfg = fh.read()
+        cfg = re.sub(r"Slack = \d+", "Slack = %d" % (ms * 1000), cfg)
+        cfg = re.sub(r"\bT = \d+", "T = %d" % (ms * 1000), cfg)
+        cfg = re.sub(r"\bH = \d+", "H = %d" % (ms * 500), cfg)
+        cfg = re.sub(r"NClients = \d+", "NClients = %d" % (watched * rounds), cfg)
+        with open(outp) as fh:
+            text = fh.read()
+        t = vlib.tlc(QSPEC, "QueueConn_Trace", "_st.cfg", files={"_st.cfg": cfg, "trace.ndjson": text.encode()}, workers=1, timeout=300)
+        chk.add_tlc(t)
+        chk.cov["evaluations"] += sum(x["touches"] for x in summ["rounds"])
+        valid_rounds += len(good)
+        contended += sum(x["touches_in_window"] for x in good)
+        if t.error is not None:
+            m = re.search(r'<<"UNEXPLAINED", (\d+)>>', t.out)
+            if not m:
+                raise vlib.Inconclusive("sweep stress trace validation failed: %s\n%s" % (t.error, t.out[-1500:]))
+            k = int(m.group(1))
+            ev = evs[k - 1]
+            prev = [e for e in evs[:k - 1] if e["a"] == ev["a"]]
+            chk.violation("C17/sweeper/queue-replaced-while-seen",
+                          "real ClientMap, mass expiry (%d fillers in one sweep, timeout %d ms): client %d got a new queue %.3f ms after the start of its previous sighting "
+                          "(the old queue was discarded although the client had just been seen): %s after %s" % (
+                              fillers, ms, ev["a"], (ev["t1"] - prev[-1]["t0"]) / 1000.0 if prev else -1, json.dumps(ev), json.dumps(prev[-1] if prev else None)),
+                          {"mode": "sweep_stress", "trace": evs[max(0, k - 40):k]})
+            return
+        chk.cov["traces_validated_against_impl"] += 1
+    chk.note("sweep stress (real ClientMap + sweeper, %d fillers + %d watched per round, timeout %d ms%s): %d valid rounds, %d sightings of watched clients "
+             "started while the sweep was in progress, trace accepted by TLC" % (fillers, watched, ms, ", -race" if race else "", valid_rounds, contended) + " (2 runs)")
+    if not valid_rounds or not contended:
+        chk.fail("sweep stress: no round had all clients expiring in one sweep with sightings inside it (machine too loaded?)")
+    chk.cov["distinct_nontrivial"] += valid_rounds
 
 
 # ---------------------------------------------------------------------------
@@ -717,6 +783,8 @@ def replay(chk, path):
         chk.note("replayed 1 queue case: %s" % s)
     elif rp.get("mode") == "sweeper":
         sweeper(chk)
+    elif rp.get("mode") == "sweep_stress":
+        sweep_stress(chk)
     elif rp.get("mode") == "redial":
         drv = vlib.go_build("./cmd/redialdrv", "redialdrv", linkflag=False)
         if rp.get("behaviour"):
